@@ -115,6 +115,35 @@ func ZZ_C06_DirectHealthy() {
 	zzvf.Reach("direct-healthy")
 }
 
+// The license in effect is the client's CURRENT default unless the send overrides it: the
+// default is changed between sends (exported field, also what ApplyConfig assigns).
+//vf: paths=2000
+func ZZ_C06_LicenseChange() {
+	znet.Reset()
+	c := zz6Client(false, 0)
+	var want []byte
+	lics := []string{zz6Lic, "renewed-license", ""}
+	for i := 0; i < 4; i++ {
+		if i == 2 {
+			c.License = lics[1+zzvf.Choose(2)]
+		}
+		lic := c.License
+		var opts []wnet.TcpClientOption
+		if i == 1 || (i == 3 && zzvf.Choose(2) == 1) {
+			lic = "other"
+			opts = append(opts, wnet.WithLicense(lic))
+		}
+		p, frame := zz6Pack(lic)
+		zzvf.Assert(c.Send(p, opts...) == nil, "license-change/send-ok")
+		want = append(want, frame...)
+	}
+	zzvf.Assert(len(znet.Links) == 1, "license-change/one-connection")
+	if len(znet.Links) == 1 {
+		zzvf.Assert(zz6Same(znet.Links[0].Rcvd, want), "license-change/each-frame-carries-the-license-in-effect-for-that-send")
+	}
+	zzvf.Reach("license-change")
+}
+
 // Connection loss at an arbitrary byte offset (before, between, in the middle of frames),
 // detectable at an arbitrary later offset, followed by 0..2 refused dials: every stream is
 // a prefix of the frames sent on that connection, a send whose write failed reports an
@@ -202,6 +231,68 @@ func ZZ_C06_Faults() {
 	zzvf.Assert(len(want1) >= 2*flen, "faults/frames-delivered-after-reconnect")
 	zzvf.Observe("r0", len(r0))
 	zzvf.Reach("faults")
+}
+
+// Two consecutive connection losses (thorough tier): the first connection is cut in its
+// first frame or at/after a frame boundary, the second one likewise after the reconnect,
+// each detected 0 / 5 / 50 bytes later; then a healthy connection. For EVERY connection the
+// collector's stream is a prefix of the frames written to it in order; for the last one it
+// is exactly the frames of the successful sends; a failed write is always reported.
+//vf: tier=thorough paths=400000 fan=400 deadline=40m
+func ZZ_C06_TwoLosses() {
+	znet.Reset()
+	const flen = 48
+	cut1, gap1 := zzvf.IntRange(0, flen+4), []int{0, 5, 50}[zzvf.Choose(3)]
+	cut2, gap2 := zzvf.IntRange(0, flen+4), []int{0, 5, 50}[zzvf.Choose(3)]
+	znet.Plan = []znet.Link{{Cut: cut1, ErrAt: cut1 + gap1}, {Cut: cut2, ErrAt: cut2 + gap2}}
+	c := zz6Client(false, 0)
+	n := 12 // 4+1 sends at most to lose and close the first, 3+1 the second, 2 good ones, slack
+	frames := make([][]byte, n)
+	errs := make([]error, n)
+	link := make([]int, n)
+	for i := 0; i < n; i++ {
+		before := 0
+		for _, l := range znet.Links {
+			before += l.WriteErrs
+		}
+		frames[i], errs[i] = zz6Send(c, false, i%3)
+		after := 0
+		for _, l := range znet.Links {
+			after += l.WriteErrs
+		}
+		if after > before {
+			zzvf.Assert(errs[i] != nil, "twolosses/failed-write-is-reported-by-the-send")
+		}
+		link[i] = len(znet.Links) - 1
+	}
+	zzvf.Assert(len(znet.Links) == 3, "twolosses/reconnected-after-each-loss")
+	if len(znet.Links) != 3 {
+		return
+	}
+	for k := 0; k < 3; k++ {
+		var all, good []byte
+		for i := 0; i < n; i++ {
+			if link[i] == k {
+				all = append(all, frames[i]...)
+				if errs[i] == nil {
+					good = append(good, frames[i]...)
+				}
+			}
+		}
+		r := znet.Links[k].Rcvd
+		if k < 2 {
+			ok := len(r) <= len(all)
+			zzvf.Assert(ok, "twolosses/stream-not-longer-than-frames-written")
+			if ok {
+				zzvf.Assert(zzvf.Same(r, all[:len(r)]), "twolosses/every-stream-is-a-prefix-of-its-frames-in-order")
+			}
+		} else {
+			zzvf.Assert(zz6Same(r, good), "twolosses/last-stream-is-whole-frames-of-successful-sends")
+			zzvf.Assert(len(good) >= 2*flen, "twolosses/frames-delivered-after-second-reconnect")
+		}
+	}
+	zzvf.Assert(errs[n-1] == nil && errs[n-2] == nil, "twolosses/sends-succeed-again")
+	zzvf.Reach("twolosses")
 }
 
 // Queue mode: accepted packs are delivered in acceptance order by SendAndClear; a full
